@@ -565,6 +565,7 @@ func checkC20(p *Prog, res *Result, tier string) {
 	res.rule("C20-R10", "no nil element in a repeated message field of an answer: an element produced by a nil-for-nil converter is stored only where its argument was tested non-nil (or is an element of the backend's list)", 3)
 	res.rule("C20-R11", "no check-then-use contradiction in the request layers: a pointer that a function compares with nil somewhere is dereferenced only where it is known to be non-nil (or where an error that came with it was found nil)", 3)
 	res.rule("C20-R12", "a channel is closed once: a function with several callers that closes a channel it is handed does so only after finding it in its registry (comma-ok lookup), and removes it there on the same path", 1)
+	res.rule("C20-R14", "no lock is held across a wait loop: from every Lock / RLock the matching release is passed before a blocking select or channel receive inside a loop (a goroutine that serves a stream must not keep the reset path of its owner locked out for the lifetime of the stream)", 20)
 	res.rule("C20-R13", "no counter is emitted with a value that may be negative: the value of an EmitCounter is not derived from a subtraction (through fields and parameters) unless a dominating test makes it non-negative", 1)
 	res.rule("C20-R6", "label values reach the prometheus client only through a UTF-8 sanitiser: request bytes used as a label value (a watched prefix) cannot make With() panic", 1)
 	res.rule("C20-R5", "no allocation is sized by an integer taken from a request (limit, revision, lease ...) without an upper bound: make() with such a size can exceed memory or panic outright", 3)
@@ -762,6 +763,7 @@ func checkC20(p *Prog, res *Result, tier string) {
 	checkNilBeliefContradiction(p, res, "C20-R11")
 	checkCloseOnce(p, res, "C20-R12")
 	checkCounterValuesNonNegative(p, res, "C20-R13")
+	checkNoLockAcrossWaitLoop(p, res, "C20-R14")
 	checkStreamResponsesComplete(p, res, "C20-R2")
 	// R7: self-deadlock (C19-R5)
 	checkSelfDeadlock(p, p.lockContext(), res, "C20-R7")
@@ -1028,6 +1030,13 @@ func checkGuardedIndexing(p *Prog, res *Result) {
 					case op == token.NEQ && cf.Want && k == 0 && need == 0:
 						guarded = true
 					case op == token.EQL && !cf.Want && k == 0 && need == 0:
+						guarded = true
+					// the negated forms of an early return: `if len(x) != k { return }`, `if len(x) < k { return }`
+					case op == token.NEQ && !cf.Want && k > need:
+						guarded = true
+					case op == token.LSS && !cf.Want && k > need:
+						guarded = true
+					case op == token.LEQ && !cf.Want && k >= need:
 						guarded = true
 					}
 				}
